@@ -98,7 +98,8 @@ type botSim struct {
 	link      *simnet.Link
 	refuse    bool
 	configExt int
-	nCommon   int // the first nCommon handlers are the world's shared "common" list
+	nCommon   int    // the first nCommon handlers are the world's shared "common" list
+	claimed   string // UUID the client claims in Login-Hello ("" = none): an offline server must not adopt it
 
 	// observations (written by tasks through norace methods)
 	log          []invocation
@@ -249,6 +250,24 @@ func drawBot(tp *tape.Tape, idx int, threshold int, names map[string]bool) *botS
 	for i := 0; i < nC; i++ {
 		id := gen.PacketID(tp)
 		b.c2s = append(b.c2s, spkt{id, gen.Fill(tp, gen.PayloadLen(tp, threshold, id, 2000), 20+idx, i), -1})
+	}
+	if threshold >= 0 && tp.Bool(1, 100) {
+		// one play packet close to the protocol maximum whose content does not
+		// compress (its frame is longer than its data)
+		pHugePlay.Hit()
+		data := make([]byte, 1<<21-5-tp.Choose(700))
+		x := tp.U64() | 1
+		for i := range data {
+			x ^= x << 13
+			x ^= x >> 7
+			x ^= x << 17
+			data[i] = byte(x)
+		}
+		if tp.Bool(1, 2) {
+			b.s2c = append(b.s2c, spkt{s2cIDs[tp.Choose(len(s2cIDs))], data, -1})
+		} else {
+			b.c2s = append(b.c2s, spkt{gen.PacketID(tp), data, -1})
+		}
 	}
 	// handlers: one generic observer always; 0..6 more generic, 0..6 per id
 	b.handlers = append(b.handlers, handlerCfg{generic: true, priority: prio(tp), park: true})
@@ -645,6 +664,15 @@ func scenarioWorld(c *harness.Ctx) {
 			b.nCommon = len(common)
 		}
 	}
+	for _, b := range bots {
+		if tp.Bool(1, 4) {
+			var u uuid.UUID
+			copy(u[:], tp.Bytes(16))
+			u[6], u[8] = u[6]&0x0f|0x40, u[8]&0x3f|0x80 // a plausible v4 profile id
+			b.claimed = u.String()
+			pClaimedUUID.Hit()
+		}
+	}
 	refuseNames := map[string]bool{}
 	for _, b := range bots {
 		if tp.Bool(1, 6) {
@@ -820,6 +848,7 @@ func scenarioWorld(c *harness.Ctx) {
 				defer signal()
 				client := bot.NewClient()
 				client.Auth.Name = b.name
+				client.Auth.UUID = b.claimed
 				// handlers, registered in tape-chosen batches
 				if b.nCommon > 0 {
 					client.Events.AddGeneric(commonHs...)
@@ -1198,3 +1227,7 @@ var pListen = simrt.NewProbe("server.Listen.accept.loop.on.a.simulated.listener"
 var pSharedHandlers = simrt.NewProbe("handlers.common.list.shared.by.several.bots(one.slice)")
 
 var pStatusUnavailable = simrt.NewProbe("status.ping.entry.point.not.available(not.run)")
+
+var pClaimedUUID = simrt.NewProbe("bot.claims.a.profile.uuid.in.login-hello")
+
+var pHugePlay = simrt.NewProbe("play.packet.near.protocol.maximum.incompressible")
